@@ -862,6 +862,263 @@ def model_expect(case, model):
     return model
 
 
+
+
+def sweep_lengths(n):
+    """the wrong (and the right) lengths tried against a requirement of n entries: 0, 1, n-1, n, n+1, n+2, 2n"""
+    return sorted({L for L in (0, 1, n - 1, n, n + 1, n + 2, 2 * n) if L >= 0})
+
+
+def setter_arg(rng, sid, L):
+    if sid in (2, 3):
+        return [rng.uni(0, 1) for _ in range(L)]
+    if sid == 4:
+        return [rng.uni(0, 7) for _ in range(L)]
+    if sid == 5:
+        return [rng.uni(0, 4) for _ in range(L)]
+    if sid == 8:
+        return [v for _ in range(L) for v in (rng.uni(-9, 9), rng.uni(-9, 9), rng.uni(0, 7))]
+    if sid == 10:
+        return [v for i in range(L) for v in (rng.uni(-3, 3), rng.uni(4, 9), i, i + 1, rng.uni(0, 7))]
+    if sid == 9:
+        return [rng.uni(1, 5) for _ in range(L)]
+    return [rng.uni(-9, 9) for _ in range(L)]
+
+
+def gen_lengths(ctx, rng):
+    """the length sweep 0, 1, n-1, n, n+1, n+2, 2n on LARGER circuits than gen_setters / gen_addnet / gen_setnets reach (n = 5, 8, 13 cells;
+    nets of 4 and 6 pins), for every modelled entry point: the eleven setters, the offset vectors of addNet, the five vectors of setNets.
+    Returns {"SET": [...], "ADDNET": [...], "SETNETS": [...]}"""
+    out = {"SET": [], "ADDNET": [], "SETNETS": []}
+    for n in ((5, 8) if ctx.quick else (5, 8, 13)):
+        for sid in range(11):
+            s = rand_state(rng, n, nets=(4 if sid == 9 else None), inuse=1 if rng.coin(15) else 0)
+            want = len(s["wt"]) if sid == 9 else n
+            for L in sweep_lengths(want):
+                out["SET"].append(("SET %d %s %d %s" % (sid, ser_state(s), L, " ".join(map(str, setter_arg(rng, sid, L))))).rstrip())
+        for npins in (4, 6):
+            cells = [rng.uni(0, n - 1) for _ in range(npins)]
+            for lx in sweep_lengths(npins):
+                for ly in sweep_lengths(npins):
+                    if lx != npins and ly != npins and rng.next() % 3:
+                        continue
+                    s = rand_state(rng, n)
+                    out["ADDNET"].append(" ".join(("ADDNET %s %d %s %d %s %d %s %d" % (
+                        ser_state(s), npins, " ".join(map(str, cells)), lx, " ".join(str(rng.uni(-2, 5)) for _ in range(lx)),
+                        ly, " ".join(str(rng.uni(-2, 5)) for _ in range(ly)), rng.uni(1, 4))).split()))
+            # ... and the cell vector against correct-length offsets of another length
+            for lc in sweep_lengths(npins):
+                s = rand_state(rng, n)
+                out["ADDNET"].append(" ".join(("ADDNET %s %d %s %d %s %d %s 2" % (
+                    ser_state(s), lc, " ".join(str(rng.uni(0, n - 1)) for _ in range(lc)), npins, " ".join(["1"] * npins), npins, " ".join(["2"] * npins))).split()))
+        s = rand_state(rng, n)
+        lim, cells = [0], []
+        for d in (2, 3, 1, 4):
+            lim.append(lim[-1] + d)
+            cells += [rng.uni(0, n - 1) for _ in range(d)]
+        xs, ys, ws = [1] * len(cells), [2] * len(cells), [1, 2, 3, 1]
+        np_ = len(cells)
+        for L in sweep_lengths(np_):
+            pad = lambda v, fill: (v + [fill] * L)[:L]
+            out["SETNETS"].append(setnets_line(s, lim, pad(cells, 0), xs, ys, ws))
+            out["SETNETS"].append(setnets_line(s, lim, cells, pad(xs, 0), ys, ws))
+            out["SETNETS"].append(setnets_line(s, lim, cells, xs, pad(ys, 0), ws))
+            out["SETNETS"].append(setnets_line(s, lim, pad(cells, 0), pad(xs, 0), pad(ys, 0), ws))
+        for L in sweep_lengths(len(ws)):
+            out["SETNETS"].append(setnets_line(s, lim, cells, xs, ys, (ws + [1] * L)[:L]))
+        for L in sweep_lengths(len(lim)):
+            out["SETNETS"].append(setnets_line(s, (lim + [lim[-1]] * L)[:L], cells, xs, ys, ws))
+    return out
+
+
+def gen_vec(ctx, rng):
+    """VEC cases: the per-cell vector entry points outside Params.v (expandCellsByFactor, mean/rms/maxDisruption) with the lengths
+    0, 1, n-1, n, n+1, n+2, 2n on circuits of n = 0, 1, 2, 3, 5, 8 cells (n = 0: every non-empty vector is a wrong length)"""
+    lines = []
+    for rep_ in range(1 if ctx.quick else 4):
+        for n in (0, 1, 2, 3, 5, 8):
+            for L in sweep_lengths(n):
+                for variant in range(3):
+                    s = rand_state(rng, n, inuse=0)
+                    if variant == 1:
+                        s["f"] = [1] * n                       # fixed cells only: the area loop reads no factor
+                    if variant == 2 and not s["rows"]:
+                        s["rows"] = [(0, 40, 0, 10, 0)]
+                    fac = [rng.choice([4, 4, 5, 6, 8, 12]) for _ in range(L)]
+                    if L and L == n and rng.coin(25):
+                        fac[rng.uni(0, L - 1)] = 2             # a factor 0.5 < 1 with the right length: refused as well (documented range)
+                    md = rng.choice(["1 0", "1 -1", "1 1", "3 -2"])
+                    lines.append("VEC 0 %s %d %s %s 0 0" % (ser_state(s), L, " ".join(map(str, fac)), md))
+                for vid in range(1, 10):
+                    if L == n and n == 0 and vid >= 7:
+                        continue      # maxDisruption of an EMPTY circuit with (valid) empty solutions dereferences max_element's end(): observation, not a wrong length
+                    s = rand_state(rng, n, inuse=0)
+                    arg = [v for _ in range(L) for v in (rng.uni(-9, 30), rng.uni(-9, 30), rng.uni(0, 7))]
+                    lines.append("VEC %d %s %d %s %d" % (vid, ser_state(s), L, " ".join(map(str, arg)), rng.uni(0, 5)))
+    return [" ".join(l.split()) for l in lines]
+
+
+def oracle_vec(case, impl):
+    """the statement of C19 on a VEC case: None, or (category, reason)"""
+    toks = case.split()
+    vid = int(toks[1])
+    st, j = parse_case_state(toks, 2)
+    L = int(toks[j])
+    n = state_ncells(st)
+    name = VEC_NAME.get(vid, "entry point %d" % vid)
+    res, st_after = split_state(impl)
+    if died(res):
+        return "dies", ("Circuit::%s called with a vector of %d entries on a circuit of %d cells does not end in a catchable error (undefined "
+                        "behaviour / the child process died): %s" % (name, L, n, res[:220]))
+    if L != n:
+        if not res.startswith("THROW"):
+            return "wrong-length-accepted", "Circuit::%s accepted a vector of %d entries on a circuit of %d cells: %s" % (name, L, n, res[:60])
+        if st_after != st:
+            return "refused-but-changed", "Circuit::%s refused the vector of %d entries (%d cells) but changed the circuit" % (name, L, n)
+        return None
+    if vid == 0:
+        low = any(int(x) < 4 for x in toks[j + 1:j + 1 + L])
+        if low and not res.startswith("THROW"):
+            return "out-of-range-accepted", "Circuit::expandCellsByFactor accepted an expansion factor below 1 (documented: at least 1): %s" % res[:60]
+        if not low and res.startswith("THROW") and LEN_MSG_EXPAND in res:
+            return "right-length-refused", "Circuit::expandCellsByFactor refused a vector with one entry per cell (%d): %s" % (n, res[:90])
+    elif res.startswith("THROW"):
+        return "right-length-refused", "Circuit::%s refused solutions with one entry per cell (%d): %s" % (name, n, res[:90])
+    elif st_after != st:
+        return "query-changed-circuit", "Circuit::%s (a query) changed the circuit" % name
+    if res.startswith("THROW") and st_after != st:
+        return "refused-but-changed", "Circuit::%s threw and changed the circuit" % name
+    return None
+
+# ------------------------------------------------------------------ every public entry point of coloquinte.hpp that takes a vector
+import re
+
+_CXX_KEYWORDS = {"if", "for", "while", "switch", "return", "sizeof", "catch", "static_cast", "decltype", "operator", "assert", "throw"}
+
+
+def vector_entry_points(header_text):
+    """[(scope, name, [names of the std::vector / PlacementSolution parameters])] for every PUBLIC member function of a class / struct
+    and every namespace-scope function DECLARED in the header text whose parameter list has a std::vector (or the alias
+    PlacementSolution = std::vector<CellPlacement>) parameter.  Small hand-written scanner: comments and string literals are blanked,
+    braces are tracked (class / struct / namespace scopes are named, every other brace -- inline function bodies -- is anonymous and
+    nothing inside it is a declaration), access labels are followed (class: private by default, struct: public)."""
+    s = re.sub(r"/\*.*?\*/", lambda m: " " * len(m.group(0)), header_text, flags=re.S)
+    s = re.sub(r"//[^\n]*", lambda m: " " * len(m.group(0)), s)
+    s = re.sub(r'"(?:[^"\\\n]|\\.)*"', lambda m: " " * len(m.group(0)), s)
+    out = []
+    stack = []                     # [kind, name, access]
+    i, n = 0, len(s)
+    pending = None                 # (kind, name) seen after the keyword class / struct / namespace, waiting for its '{' (or ';')
+    tok = re.compile(r"[A-Za-z_~][A-Za-z_0-9]*|[{}();]|\S")
+    pos = 0
+    while True:
+        m = tok.search(s, pos)
+        if not m:
+            break
+        w = m.group(0)
+        pos = m.end()
+        if w in ("class", "struct", "namespace"):
+            m2 = re.compile(r"\s*([A-Za-z_][A-Za-z_0-9]*)?").match(s, pos)
+            prev = s[max(0, m.start() - 6):m.start()]
+            if w != "namespace" and prev.rstrip().endswith("enum"):
+                pending = ("anon", "")             # enum class X { ... }
+            else:
+                pending = (w, m2.group(1) or "")
+            pos = m2.end()
+            continue
+        if w == ";":
+            pending = None
+            continue
+        if w == "{":
+            if pending:
+                stack.append([pending[0], pending[1], "public" if pending[0] in ("struct", "namespace") else "private"])
+            else:
+                stack.append(["anon", "", ""])
+            pending = None
+            continue
+        if w == "}":
+            if stack:
+                stack.pop()
+            continue
+        if w in ("public", "private", "protected") and stack and stack[-1][0] in ("class", "struct") and re.compile(r"\s*:(?!:)").match(s, pos):
+            stack[-1][2] = w
+            continue
+        if w == "(" or not (w[0].isalpha() or w[0] in "_~"):
+            continue
+        m3 = re.compile(r"\s*\(").match(s, pos)
+        if not m3 or w in _CXX_KEYWORDS:
+            continue
+        # w( ... ) : find the matching parenthesis
+        depth, k = 1, m3.end()
+        while k < n and depth:
+            depth += {"(": 1, ")": -1}.get(s[k], 0)
+            k += 1
+        params = s[m3.end():k - 1]
+        in_decl_scope = (not stack) or stack[-1][0] in ("class", "struct", "namespace")
+        public = all(fr[0] != "class" and fr[0] != "struct" or fr[2] == "public" for fr in stack)
+        if in_decl_scope and pending is None and ("std::vector" in params or "PlacementSolution" in params):
+            names = []
+            d2, cur = 0, ""
+            for ch in params + ",":
+                if ch in "<(":
+                    d2 += 1
+                elif ch in ">)":
+                    d2 -= 1
+                if ch == "," and d2 == 0:
+                    if "std::vector" in cur or "PlacementSolution" in cur:
+                        decl = cur.split("=")[0].strip()
+                        names.append(re.findall(r"[A-Za-z_][A-Za-z_0-9]*", decl)[-1])
+                    cur = ""
+                else:
+                    cur += ch
+            if public:
+                scope = "::".join(fr[1] for fr in stack if fr[0] in ("class", "struct"))
+                out.append((scope, w, names))
+            pos = k            # the parameter list holds no further declaration
+        # (a call inside an inline body is skipped by in_decl_scope; its arguments are scanned on)
+    return out
+
+
+# What the check does with each of them.  "SET k" / "ADDNET" / "SETNETS": swept by the modelled case kinds (Params.v, theorems
+# c19_setters_refuse_wrong_length, c19_addnet_refuses_bad_cell, c19_setnets_accepts_iff); "VEC k": swept by the VEC cases (statement oracle
+# and sanitizers only, no Coq model); "any length": the vector is not per cell / net / pin, every length is a valid argument (setRows is
+# modelled so: setter_expected (ARows _) = None, theorem c19_setter_requirements).
+VECTOR_ENTRY_POINTS = {
+    ("Row", "freespace", ("obstacles",)): "any length (a list of obstacle rectangles)",
+    ("Circuit", "setCellX", ("x",)): "SET 0", ("Circuit", "setCellY", ("y",)): "SET 1",
+    ("Circuit", "setCellIsFixed", ("f",)): "SET 2", ("Circuit", "setCellIsObstruction", ("f",)): "SET 3",
+    ("Circuit", "setCellOrientation", ("orient",)): "SET 4", ("Circuit", "setCellRowPolarity", ("f",)): "SET 5",
+    ("Circuit", "setCellWidth", ("widths",)): "SET 6", ("Circuit", "setCellHeight", ("heights",)): "SET 7",
+    ("Circuit", "setSolution", ("sol",)): "SET 8", ("Circuit", "setNetWeights", ("weights",)): "SET 9",
+    ("Circuit", "setRows", ("r",)): "SET 10; any length (a list of rows)",
+    ("Circuit", "addNet", ("cells", "xOffsets", "yOffsets")): "ADDNET",
+    ("Circuit", "setNets", ("limits", "cells", "xOffsets", "yOffsets", "weights")): "SETNETS",
+    ("Circuit", "computeRows", ("additionalObstacles",)): "any length (a list of obstacle rectangles)",
+    ("Circuit", "expandCellsByFactor", ("expansionFactor",)): "VEC 0",
+    ("Circuit", "computeCellExpansion", ("congestionMap",)): "any length (a list of congestion regions)",
+    ("Circuit", "meanDisruption", ("a", "b")): "VEC 1 2 3", ("Circuit", "rmsDisruption", ("a", "b")): "VEC 4 5 6",
+    ("Circuit", "maxDisruption", ("a", "b")): "VEC 7 8 9",
+}
+VEC_NAME = {0: "expandCellsByFactor"}
+for _fn, _nm in enumerate(("meanDisruption", "rmsDisruption", "maxDisruption")):
+    for _wh, _d in enumerate(("first solution of length L, second of nbCells", "second solution of length L, first of nbCells", "both solutions of length L")):
+        VEC_NAME[1 + 3 * _fn + _wh] = "%s (%s)" % (_nm, _d)
+LEN_MSG_EXPAND = "Target expansion should have one element per cell"
+
+
+def entry_point_table(ctx):
+    """compares the header of the tree under test with VECTOR_ENTRY_POINTS; returns (list found, list of problems)"""
+    hdr = open(os.path.join(common.REPO, "src", "coloquinte.hpp")).read()
+    got = [(sc, nm, tuple(ps)) for sc, nm, ps in vector_entry_points(hdr)]
+    problems = []
+    for e in got:
+        if e not in VECTOR_ENTRY_POINTS:
+            problems.append("public entry point %s::%s(%s) of coloquinte.hpp takes a vector and is not in the wrong-length sweep of checks/c19.py" % (e[0], e[1], ", ".join(e[2])))
+    for e in VECTOR_ENTRY_POINTS:
+        if e not in got:
+            problems.append("entry point %s::%s(%s) of the sweep table is no longer declared (public) in coloquinte.hpp" % (e[0], e[1], ", ".join(e[2])))
+    return got, problems
+
 # ------------------------------------------------------------------ the check
 def run_variant(variant, driver, lines, chunk=4000):
     harness = common.build_harness("params", variant)
@@ -924,6 +1181,8 @@ def run(ctx):
         sets["SETNETS"] += gen_setnets(ctx, rng)
         sets["CCHK"] += gen_cchk(ctx, rng)
         sets["ENTERE"] += gen_entere(ctx, rng)
+        for k2, l2 in gen_lengths(ctx, rng).items():          # lengths 0, 1, n-1, n, n+1, n+2, 2n on circuits of 5 .. 13 cells
+            sets[k2] += l2
     for k in sets:
         sets[k] = list(dict.fromkeys(sets[k]))
     # ENTER: parameter sets that the implementation's own check() rejects (phase 1 = the PCHK 0 cases)
@@ -974,6 +1233,31 @@ def run(ctx):
                 nmism += 1
                 if first_mism is None:
                     first_mism = {"case": c, "variant": variant, "implementation": i, "model": m}
+    # every PUBLIC entry point of coloquinte.hpp with a vector parameter is in the sweep (enumerated from the header of the tree under test)
+    entry_points, ep_problems = entry_point_table(ctx)
+    for msg in ep_problems[:3]:
+        ctx.violation(msg, {"broken": "checks/c19.py VECTOR_ENTRY_POINTS (the list of vector-taking entry points the wrong-length sweep covers)",
+                            "declared_in_header": ["%s::%s(%s)" % (a, b, ", ".join(c)) for a, b, c in entry_points]}, found_input=False)
+    # the per-cell vector entry points outside Params.v (expandCellsByFactor, mean/rms/maxDisruption): statement oracle, plain and asan builds
+    vec = common.corpus("C19", ("VEC ",))
+    for sd in ([ctx.seed] if ctx.quick else [ctx.seed, ctx.seed + 1000, ctx.seed + 2000]):
+        vec += gen_vec(ctx, common.Rng(sd + 311))
+    vec = list(dict.fromkeys(vec))
+    sets["VEC"] = vec
+    for variant in ("plain", "asan"):
+        _, impl_v, _ = run_variant(variant, None, vec, chunk=120)
+        for c, i in zip(vec, impl_v):
+            kinds["VEC"] = kinds.get("VEC", 0) + 1
+            okey = variant + ":VEC:" + i.split(" ", 1)[0]
+            outcomes[okey] = outcomes.get(okey, 0) + 1
+            if i.startswith("THROW"):
+                nontriv.add(c)
+            why = oracle_vec(c, i)
+            if why:
+                nviol += 1
+                key = ("VEC", why[0])
+                if key not in found or (("AddressSanitizer" in i or "runtime error" in i) and not ("AddressSanitizer" in found[key][2] or "runtime error" in found[key][2])):
+                    found[key] = (variant, c, i, "(not modelled)", why[1])
     # sequences on ONE parameter object (stale state kept between calls): every recorded call judged as a one-shot case
     pseq_cases = common.corpus("C19", ("PSEQ ",))
     pseq_dist = {}
@@ -999,7 +1283,7 @@ def run(ctx):
     outcomes.update(pseq["outcomes"])
     kinds["PSEQ"] = len(pseq_cases)
     kinds["PSEQ-recorded-calls"] = pseq["records"]
-    prio = ["CTOR-out", "ADDNET", "SETNETS", "ENTER", "ENTERE", "CTOR-in", "SET", "PCHK", "CCHK"]
+    prio = ["CTOR-out", "ADDNET", "SETNETS", "VEC", "ENTER", "ENTERE", "CTOR-in", "SET", "PCHK", "CCHK"]
     for key in sorted(found, key=lambda k: (k[1] != "dies" or k[0] != "CTOR-out", prio.index(k[0]) if k[0] in prio else 99, k[1])):
         variant, c, i, m, msg = found[key]
         ctx.violation("C19 violated by /repo (%s build): %s" % (variant, msg),
@@ -1031,7 +1315,7 @@ def run(ctx):
                           {"broken": "Properties_C19.v", "detail": proof}, found_input=False)
     elif not proof_ok:
         ctx.notes.append("proof broken as well")
-    total = sum(len(r[1]) for r in runs) + pseq["records"] + pseq["oneshot"]
+    total = sum(len(r[1]) for r in runs) + pseq["records"] + pseq["oneshot"] + 2 * len(vec)
     cov = dict(proof)
     cov.update({"trusted_base": common.TRUSTED_BASE + [
                     "checks/c19.py translator (constructor dump -> coq/ParamsDefaults_gen.v) and its oracle()",
@@ -1047,11 +1331,13 @@ def run(ctx):
                         "and compared with the model and with a fresh object holding those values (one-shot PCHK/ENTER cases)",
                 "sequence_stream": dict(pseq_dist, recorded_calls=pseq["records"], one_shot_cases_derived=pseq["oneshot"],
                                         calls_differing_from_model=len(pseq["mismatches"]), calls_violating_statement=len(pseq["violations"])),
+                "vector_entry_points_declared_in_coloquinte_hpp": {"%s::%s(%s)" % (a, b, ", ".join(c)): VECTOR_ENTRY_POINTS.get((a, b, c), "NOT IN THE SWEEP")
+                                                                   for a, b, c in entry_points},
                 "kinds": kinds, "outcomes_by_variant_kind": outcomes, "pchk_distribution": dist.get("pchk"),
                 "enter_probe_stream": enter_probe_dist,
                 "defaults_table_regenerated": changed,
                 "samples": [sets["CTOR"][0], sets["PCHK"][0] if sets["PCHK"] else "", sets["SET"][5], sets["ADDNET"][-1],
-                            sets["SETNETS"][3], enter[0] if enter else "", sets["ENTERE"][0]] + pseq_cases[-1:],
+                            sets["SETNETS"][3], enter[0] if enter else "", sets["ENTERE"][0]] + pseq_cases[-1:] + vec[:1] + vec[-1:],
                 "input_distribution": "constructors: 7 structs x efforts -16..32 exhaustive + 8 special + random 32-bit, child process per case, "
                                       "plain (assertions on) and asan (ASan+UBSan) builds; check(): every literal bound at nextafter below/at/above "
                                       "(ints b-1/b/b+1) singly on 2 bases and in pairs, relational grids, random; setters: 11 setters x n=0..%d cells x "
@@ -1063,7 +1349,18 @@ def run(ctx):
                                       "circuits with cells of height 1, 10 and 2720 (enter_probe_stream); one CHILD PROCESS per ENTER / ENTERE case with a "
                                       "30 s CPU limit: a child that is killed by a signal (SIGFPE, SIGSEGV, SIGABRT, sanitizer report) or does not finish is "
                                       "a violation 'not refused with a catchable error before any placement work / without undefined behaviour'; state "
-                                      "compared; sequences on one parameter object: see rule" % (3 if ctx.quick else 5),
+                                      "compared; sequences on one parameter object: see rule.  LENGTH SWEEP over EVERY public entry point of coloquinte.hpp "
+                                      "with a std::vector / PlacementSolution parameter (enumerated from the header of the tree under test by "
+                                      "vector_entry_points() and compared with the table VECTOR_ENTRY_POINTS: an entry point missing from the table fails the "
+                                      "run): lengths 0, 1, n-1, n, n+1, n+2, 2n against a requirement of n -- the eleven setters on circuits of 5, 8 (13) cells, "
+                                      "the offset and cell vectors of addNet for nets of 4 and 6 pins, the five vectors of setNets (modelled kinds: compared "
+                                      "with Params.v), and the VEC cases (no Coq model; statement oracle on plain and asan builds, one child process per case): "
+                                      "expandCellsByFactor and mean / rms / maxDisruption (first, second, both solutions) on circuits of 0, 1, 2, 3, 5, 8 cells "
+                                      "(n = 0: every non-empty vector is a wrong length; the EMPTY vector is a wrong length whenever n > 0), movable, "
+                                      "fixed-only and with / without rows: a wrong length must be refused with a catchable error and leave all 14 vectors "
+                                      "and the flags unchanged, the right length must not be refused for its length, a factor below 1 is refused, a query "
+                                      "leaves the circuit unchanged; vectors without a per-cell requirement (setRows, computeRows, computeCellExpansion, "
+                                      "Row::freespace) are listed as 'any length'" % (3 if ctx.quick else 5),
                 "model_vs_impl_differences": nmism, "impl_outputs_violating_statement": nviol,
                 "violation_categories": {"%s/%s" % k: v[4][:160] for k, v in found.items()},
                 "extraction_cross_check": "ok" if vm_bad is None else vm_bad})
@@ -1072,6 +1369,8 @@ def run(ctx):
         "int fields are modelled over Z; values passed fit in 32 bits",
         "isInUse_ after a refused call is C10's subject and is not compared here",
         "'accepted set = ranges' is a Prop-level reading of check() (coloquinte_ok transcribes the same test lists); 'before any placement work' holds by construction of the model's `enter` and is validated per run; "
+        "expandCellsByFactor and mean/rms/maxDisruption (VEC cases) have NO Coq model: their refusal of wrong lengths is validated by the statement oracle and the sanitizers on the cases of the run; "
+        "maxDisruption on an EMPTY circuit with (valid) empty solutions dereferences max_element's end() -- an observation outside the wrong-length clause, not generated",
         "'without undefined behaviour' is expressible in Coq only for the four array[effort-1] reads and the unrepaired setNets asserts, elsewhere it is sanitizer-validated; place(int) has no model of its own; addNet has the refusal direction only",
         "net weights are small integers in the correspondence runs (exact floats)",
         "the work after an accepted parameter set (CWork) is not modelled in this property",
@@ -1096,6 +1395,15 @@ def replay(ctx, path):
         for d in o["mismatches"]:
             print("DIFFERS FROM MODEL: record %s %s\n   impl : %s\n   model: %s" % (d["record"], d["call_as_one_shot_case"], d["implementation_output"], d["model_output"]))
         return 1 if o["violations"] or o["mismatches"] else 0
+    if case.startswith("VEC "):
+        impl, _, _ = common.run_both([harness, "run"], None, [case])
+        why = oracle_vec(case, impl[0])
+        print("case   :", case)
+        print("variant:", variant)
+        print("entry  : Circuit::%s" % VEC_NAME.get(int(case.split()[1])))
+        print("impl   :", impl[0])
+        print("oracle :", why[1] if why else "statement holds on this case")
+        return 1 if why else 0
     impl, model, _ = common.run_both([harness, "run"], [driver], [case])
     aux = followups(harness, [case], impl)
     why = oracle(case, impl[0], aux)
